@@ -26,6 +26,11 @@ func allLeaves() []*Node {
 	l = append(l,
 		inc(), inc(vInt(1)), inc(vStr("a")), inc(vInt(1), vStr("a")), inc(vStr("a"), vStr("b")),
 		inc(vFloat(2.5)), inc(vInt(two53+1)), inc(vSym("true")))
+	// declared lists for the name/spelling confusion family: all-string,
+	// containing "", naming a tagged type, mixed string / symbol / keyword / int
+	l = append(l,
+		inc(vStr("true"), vStr("false")), inc(vStr(""), vStr("n/a")), inc(vStr("user:"+typedefA)),
+		inc(vStr("a"), vSym("b")), inc(vSym("a")), inc(vSym(":a")), inc(vStr(""), vInt(1)))
 	for _, op := range []string{"gt", "gte", "lt", "lte"} {
 		for _, p := range numParams {
 			l = append(l, numc(op, p))
@@ -50,6 +55,7 @@ func coreLeaves() []*Node {
 		inc(vStr("a")), inc(vInt(1)), numc("gt", vInt(1)), numc("lte", vInt(two53)), numc("gte", vInt(two53+1)),
 		leaf("positive"), numc("len", vInt(1)), numc("lengt", vInt(0)),
 		leaf("is-true"), leaf("is-truthy"), leaf("is-falsy"), rex("^a+$"),
+		inc(vStr(""), vStr("a")),
 	}
 }
 
@@ -60,6 +66,8 @@ func nestedValidators() []*Node {
 		validator("string", inc(vStr("a"))),
 		validator("sorted-map", hasKey("a", typ("int"))),
 		{Op: opSymRef},
+		// an all-string enumeration with no string type gate in front of it
+		validator("any", inc(vStr("a"), vStr("b"))),
 	}
 }
 
@@ -129,11 +137,12 @@ func buildPools(thorough bool) *pools {
 		}
 	}
 	d1 = append(d1, noOther(numc("lengt", vInt(0))), noOther(hasKey("a"), leaf("is-truthy")))
+	d1 = append(d1, hasKey(""), mayKey(""), hasKey("", typ("int")), noOther(mayKey("")))
 	whenKeys := [][2]string{{"a", "b"}, {"a", "a"}, {"b", "a"}}
 	guards := p.core
 	checks := p.core
 	if !thorough {
-		guards = []*Node{inc(vStr("a")), numc("gt", vInt(1)), leaf("is-true"), leaf("is-truthy"), numc("gte", vInt(two53+1))}
+		guards = []*Node{inc(vStr("a")), inc(vStr(""), vStr("a")), numc("gt", vInt(1)), leaf("is-true"), leaf("is-truthy"), numc("gte", vInt(two53+1))}
 		checks = []*Node{inc(vInt(1)), numc("gt", vInt(1)), leaf("is-falsy"), rex("^a+$")}
 		whenKeys = whenKeys[:2]
 	}
